@@ -43,7 +43,7 @@ def parseStmt (s : String) : Option Stmt :=
   | 'M' => match nats tl with | some [t, c] => some (.commentOn t c) | _ => none
   | 'S' => tl.toNat?.map .createSchema
   | 'V' => tl.toNat?.map .createView
-  | 'B' => tl.toNat?.map .createDatabase
+  | 'B' => (String.ofList (tl.toList.takeWhile Char.isDigit)).toNat?.map .createDatabase   -- `B<d>q`: the name written quoted (upper case)
   | 'i' => match nats tl with | some [t, k, v] => some (.dml t (.ins k v)) | _ => none
   | 'u' => match nats tl with | some [t, k, v] => some (.dml t (.upd k v)) | _ => none
   | 'd' => match nats tl with | some [t, k] => some (.dml t (.del k)) | _ => none
